@@ -263,7 +263,8 @@ class NumpyTensorSpace(TensorSpace):
                 if self.weighting.array.dtype == object:
                     raise ValueError('invalid `weighting` argument: {}'
                                      ''.format(weighting))
-                elif not np.can_cast(self.weighting.array.dtype, self.dtype):
+                elif not np.can_cast(self.weighting.array.dtype, self.dtype,
+                                     casting='same_kind'):
                     raise ValueError(
                         'cannot cast from `weighting` data type {} to '
                         'the space `dtype` {}'
